@@ -150,17 +150,19 @@ Definition lookup_seg (sc : schema) (md : nat) (seg : list byte) : option field 
     end
   end.
 
-(* rangeFields: the fields are those of strings.Split(path, ".") *)
-Fixpoint split_dots (p : list byte) : list (list byte) :=
+(* strings.Split(s, sep) for a one-byte separator *)
+Fixpoint split_on (sep : byte) (p : list byte) : list (list byte) :=
   match p with
   | [] => [[]]
   | c :: t =>
-    if beq c dot then [] :: split_dots t
-    else match split_dots t with
+    if beq c sep then [] :: split_on sep t
+    else match split_on sep t with
          | h :: r => (c :: h) :: r
          | [] => [[c]]
          end
   end.
+(* rangeFields: the fields are those of strings.Split(path, ".") *)
+Definition split_dots (p : list byte) : list (list byte) := split_on dot p.
 
 Fixpoint walk (sc : schema) (md : option nat) (segs : list (list byte)) : bool :=
   match segs with
